@@ -52,7 +52,7 @@ Definition is_none (t : ty) : bool := match t with TNone => true | _ => false en
    matching every composite of its kind (Type.matches) *)
 Fixpoint ty_compat (a b : ty) : bool :=
   match a, b with
-  | TNum, TNum | TStr, TStr | TBool, TBool | TAny, TAny | TNone, TNone => true
+  | TNum, TNum | TStr, TStr | TBool, TBool | TAny, TAny => true      (* not none: validateBinaryType rejects NONE_TYPE operands (c2a6828) *)
   | TArr x, TArr y => ty_compat x y
   | TMap x, TMap y => ty_compat x y
   | TEmptyArr, TArr _ | TEmptyArr, TEmptyArr | TArr _, TEmptyArr => true
